@@ -5,7 +5,7 @@ PROP = "C13"
 LEVEL = "exploration"
 BUDGET = {"quick": 480, "thorough": 6000}
 MIN_PER_SHARD = 10
-ALL_KINDS = ["op", "op", "comp", "comp", "struct", "struct", "kraus", "measure", "measure", "povm", "resize", "trace_out", "bigop", "set_contraction"]
+ALL_KINDS = ["op", "comp", "comp", "struct", "struct", "newce", "newce", "newce", "kraus", "measure", "measure", "povm", "resize", "trace_out"]
 
 
 def strategy(tier):
